@@ -32,6 +32,14 @@ func newCache[H Hash]() cache[H] {
 }
 
 func (c *cache[H]) getHeight(h uint32) *inbox[H] {
+	// Messages of the heights that are over (including the ones skipped by
+	// the ledger) will never be used, do not keep them.
+	for k := range c.mail {
+		if k < h {
+			delete(c.mail, k)
+		}
+	}
+
 	if m, ok := c.mail[h]; ok {
 		delete(c.mail, h)
 		return m
